@@ -17,7 +17,7 @@ RULE = ("every price of the exact domain (ticks 1/8..100 exactly representable x
 EXACT_TICKS = [0.125, 0.25, 0.5, 1.0, 2.0, 3.0, 5.0, 10.0, 100.0]
 DEC_TICKS = [0.1, 0.01, 0.001, 0.00001]
 WIT = ["on_grid_unchanged", "buy_rounded_down", "sell_rounded_up", "adjacent_float_below_grid", "adjacent_float_above_grid",
-       "decimal_tick_case", "market_order_untouched", "large_grid_index", "same_price_both_sides_one_market"]
+       "decimal_tick_case", "market_order_untouched", "large_grid_index", "same_price_both_sides_one_market", "long_lived_market_submissions"]
 
 
 def neighbourhood(tick, ks):
@@ -139,10 +139,52 @@ def seq_fn(case, wit):
     return (tick, order)
 
 
+def shared_cases(tier):
+    for tick, exact in [(t, True) for t in EXACT_TICKS] + [(t, False) for t in DEC_TICKS]:
+        for direction in ("ascending", "descending", "sides_swapped"):
+            yield (tick, exact, direction)
+
+
+def shared_fn(case, wit):
+    """the whole price domain of one tick size submitted to ONE long-lived market (so that any state the
+    market keeps between submissions is exercised), each acceptance compared with the same oracle"""
+    tick, exact, direction = case
+    ks = list(range(0, 41)) + [1000, 12345]
+    ps = neighbourhood(tick, ks)
+    if direction == "descending":
+        ps = ps[::-1]
+    m = Market(0, None, None, "m")
+    m.setup({"tickSize": tick, "marketPrice": 100.0})
+    m._update_time(100.0)
+    m._is_running = False
+    for i, p in enumerate(ps):
+        for is_buy in ((True, False) if direction != "sides_swapped" else (False, True)):
+            o = Order(0, 0, is_buy, LIMIT_ORDER, 1, price=p)
+            m._add_order(o)
+            a = o.price
+            ft, fp, fa = F(tick), F(p), F(a)
+            slack = 0 if exact else 4 * F(math.ulp(p))
+            on = ((fp / ft).denominator == 1) if exact else (p % tick == 0)
+            bad = None
+            if on and abs(fa - fp) > slack:
+                bad = ("C19.on_grid_changed", "a price already on the grid was changed")
+            elif not on and ((is_buy and fa > fp + slack) or (not is_buy and fa < fp - slack)):
+                bad = ("C19.more_aggressive", "an off-grid %s price was moved %s (more aggressive)" % (("buy", "up") if is_buy else ("sell", "down")))
+            elif not on and abs(fa - fp) >= ft + slack:
+                bad = ("C19.too_far", "an off-grid price was moved by a tick or more")
+            if bad:
+                raise Violation(bad[0], bad[1], "tick %r: submission #%d to one long-lived market, price %r %s -> accepted %r" % (
+                    tick, 2 * i, p, "buy" if is_buy else "sell", a))
+            wit.inc("long_lived_market_submissions")
+    return (tick, direction)
+
+
 def run(tier, seed):
     res = common.Result("C19", tier, seed)
     run_grid(res, "tick_rounding", list(cases(tier)), fn, seed)
     run_grid(res, "same_price_both_sides", list(seq_cases(tier)), seq_fn, seed)
+    run_grid(res, "one_long_lived_market", list(shared_cases(tier)), shared_fn, seed)
+    res.coverage["evaluations"] += res.coverage["witness_classes"].get("long_lived_market_submissions", 0)
     res.coverage["exhaustive"] = True
     res.coverage["rule"] = RULE
     res.assumptions = ["on decimal tick sizes each inequality is allowed a slack of 4 ulp(price) and 'grid point' means the float k*tick (the property's own 'up to floating-point representation of the grid' clause)",
